@@ -12,6 +12,10 @@ import Aqv.Lemmas.FeedInvD
 import Aqv.Lemmas.FeedInvE
 import Aqv.Lemmas.FeedInvF
 import Aqv.Lemmas.FeedTrace
+import Aqv.Lemmas.FeedLive
+import Aqv.Lemmas.FeedExec
+import Aqv.Model.FeedMu
+import Aqv.Lemmas.ScopeInv
 namespace Aqv.Props.C19
 open Aqv.Feed
 
@@ -135,21 +139,22 @@ theorem quiescent_membership {s : St} (h : Reach s) (hq : s.tokenFree = true) (c
   rw [hn] at h10
   grind
 
-/-! ### Progress (deadlock freedom).
+/-! ### Progress and liveness.
 
-Full statement wanted (DESIGN §4): under weak fairness of the scheduler and of receivers every `Send` and every
-`Unsubscribe` returns.  What is proved here, for every reachable state:
-* `token_never_lost`      — if the token is not free, a definite goroutine holds it;
-* `holder_can_step`       — that goroutine always has an enabled step of its own, unless it is a Send blocked in Select;
-* `select_waits_only_for_receivers` — a Send blocked in Select has at least one active case, and as soon as the receiver
-                            of ANY active case arrives at its `<-ch` the Send can place the value there; a pending
-                            `remove` at its select can always rendezvous with it;
-* `waiters_enabled`       — when the token is free every Send blocked in `<-sendLock` and every `remove` at its select
-                            can take it;
-* `send_measure_decreases`— every step of the token-holding Send after the inbox merge strictly decreases a
-                            lexicographic measure, so a Send performs only finitely many steps between receiver arrivals.
-Not formalised (hence `_partial`): the temporal argument that turns these into "always eventually returns" under weak
-fairness (it needs fair infinite runs); Go's scheduler and `reflect.Select` fairness are assumptions. -/
+State-level facts (every reachable state): `token_never_lost`, `holder_can_step`, `select_waits_only_for_receivers`,
+`waiters_enabled`, `send_measure_decreases` (bundled as `progress_partial`).  They are the ingredients of the liveness
+theorems `send_terminates` / `remove_terminates` below, which hold on every infinite FAIR execution (`Aqv.Feed.Exec`,
+`Aqv.Feed.Fair`, Lemmas/FeedLive): every Send that has been called and every Unsubscribe that has been called returns.
+What `Fair` assumes, and nothing else:
+* scheduler — weak fairness per goroutine: a Send goroutine holding the token, or a `remove` at a step that needs nobody
+  else, that is continuously able to take SOME step eventually takes a step.  Nothing is assumed about WHICH ready case
+  `reflect.Select` picks (every choice strictly decreases `sendMeasure`); `reflect.Select` is only assumed to return when
+  some case is ready, which is what "able to take a step" means for a goroutine blocked in it;
+* receivers — no channel stays forever both in `f.sendCases` and unable to accept a value (a full/unbuffered channel of
+  a subscriber that is not unsubscribed is eventually received from);
+* the sendLock hand-off — a goroutine blocked in `<-f.sendLock` does not wait forever while the token becomes free again
+  and again (strong fairness of that one channel; in Go it follows from the FIFO wait queue of a channel).
+Not covered: the Go memory model (data races) and real-time bounds. -/
 
 theorem token_never_lost {s : St} (h : Reach s) (hq : s.tokenFree = false) :
     (∃ g, (s.spc g).held = true) ∨ (∃ c, (s.rpc c).held = true) := by
@@ -210,15 +215,6 @@ theorem waiters_enabled {s : St} (hq : s.tokenFree = true) :
   · intro g hg; simp [step, hg, hq]
   · intro c hc; simp [step, hc, hq]
 
-/-- work left for the token-holding Send g after the merge: (cases still in play + subscriptions that can still be
-    removed under it, position inside the current sweep/select round) -/
-def sendMeasure (s : St) (g : Sid) : Nat × Nat :=
-  (s.sendCases.length + s.active,
-   match s.spc g with
-   | .sweep i => 2 + (s.active - i)
-   | .sel => 1
-   | _ => 0)
-
 theorem send_measure_decreases {s s' : St} (g : Sid) (a : Act)
     (ha : a = .tryOk g ∨ a = .tryFail g ∨ a = .sweepEnd g ∨ (∃ i, a = .selPlace g i) ∨ (∃ c, a = .selRecv g c) ∨ a = .doRemove g)
     (hs : step s a = some s') (hm : (s'.spc g).merged = true) :
@@ -231,7 +227,29 @@ theorem send_measure_decreases {s s' : St} (g : Sid) (a : Act)
     | (apply Prod.Lex.left; grind)
     | (apply Prod.Lex.right'; all_goals grind)
 
-/-- PROGRESS, partial form (see the section comment for what is and is not covered). -/
+/-- SEND TERMINATES: on every fair execution, once `Send g` has been called it eventually returns. -/
+theorem send_terminates (e : Exec) (hf : Fair e) (g : Sid) (n : Nat) (hcall : Ev.sendCall g ∈ (e.σ n).tr) :
+    ∃ m, n ≤ m ∧ ∃ r, Ev.sendRet g r ∈ (e.σ m).tr := by
+  have h0 := ((invE_reach (e.reach n)).t_scall g).mp hcall
+  obtain ⟨m, hm, r, hr⟩ := send_terminates_pc e hf g n h0
+  exact ⟨m, hm, r, ((invE_reach (e.reach m)).t_sret g r).mpr hr⟩
+
+/-- REMOVE TERMINATES: on every fair execution, once `Unsubscribe` of c has been called it eventually returns —
+    whether it finds the channel in the inbox, rendezvouses with a running Send, or takes the token itself. -/
+theorem remove_terminates (e : Exec) (hf : Fair e) (c : Chan) (n : Nat) (hcall : Ev.unsubCall c ∈ (e.σ n).tr) :
+    ∃ m, n ≤ m ∧ Ev.unsubRet c ∈ (e.σ m).tr := by
+  have h0 := ((invE_reach (e.reach n)).t_ucall c).mp hcall
+  obtain ⟨m, hm, hr⟩ := remove_terminates_pc e hf c n h0
+  exact ⟨m, hm, ((invE_reach (e.reach m)).t_uret c).mpr hr⟩
+
+/-- no infinite fair execution keeps a started Send unfinished (the bounded reading of `send_terminates`). -/
+theorem no_fair_execution_starves_send (e : Exec) (hf : Fair e) (g : Sid) (n : Nat) (hcall : Ev.sendCall g ∈ (e.σ n).tr) :
+    ¬ ∀ m r, Ev.sendRet g r ∉ (e.σ m).tr := by
+  intro h
+  obtain ⟨m, _, r, hr⟩ := send_terminates e hf g n hcall
+  exact h m r hr
+
+/-- state-level progress facts bundled (kept from the first version; see the section comment). -/
 theorem progress_partial {s : St} (h : Reach s) :
     (s.tokenFree = false → (∃ g, (s.spc g).held = true) ∨ (∃ c, (s.rpc c).held = true)) ∧
     (∀ g, s.spc g = .sel → 0 < s.active ∧
@@ -296,5 +314,134 @@ example : ∃ s, Reach s ∧ s.spc 7 = .sel ∧ s.active = 1 :=
 -- hypothesis of `send_measure_decreases`: the measure on the way
 example : sendMeasure ((run init (demo.take 6)).getD init) 7 = (3, 3) ∧ sendMeasure ((run init (demo.take 7)).getD init) 7 = (3, 2)
     ∧ sendMeasure ((run init (demo.take 8)).getD init) 7 = (3, 1) ∧ sendMeasure ((run init (demo.take 12)).getD init) 7 = (1, 2) := by decide
+
+
+/-! ### Misuse path (documented, outside the property): a `Send` whose value has the wrong type.
+
+The property quantifies over interleavings of well-typed Send/Subscribe/Unsubscribe calls; `Send` of a wrong-typed value is
+documented to panic.  As written it panics with `f.mu` still locked, so if the panic is recovered every later
+Subscribe/Send on that feed blocks.  Reproduced on the real code by the harness (`misuse:feed-after-recovered-send-type-panic`);
+kept as a note, not a finding against C19. -/
+
+/-- witness: feed of element type 0, `Send` of a value of type 1: the call panics, the sendLock token is back, `f.mu` is
+    still held, and no later critical section can start. -/
+theorem send_type_mismatch_panics_with_lock_held_witness :
+    (FeedMu.sendPrologue ⟨true, false, some 0⟩ 1).2 = .panics ∧
+    (FeedMu.sendPrologue ⟨true, false, some 0⟩ 1).1.tokenFree = true ∧
+    (FeedMu.sendPrologue ⟨true, false, some 0⟩ 1).1.muLocked = true ∧
+    FeedMu.canLockMu (FeedMu.sendPrologue ⟨true, false, some 0⟩ 1).1 = false := by decide
+
+/-- well-typed calls (the only ones the property ranges over) always leave `f.mu` unlocked and keep the token -/
+theorem send_well_typed_releases_mu (s : FeedMu.Pro) (ty : Nat) (h : s.etype = none ∨ s.etype = some ty) :
+    (FeedMu.sendPrologue s ty).2 = .proceeds ∧ (FeedMu.sendPrologue s ty).1.muLocked = false ∧
+    (FeedMu.sendPrologue s ty).1.tokenFree = false := by
+  rcases h with h | h <;> simp [FeedMu.sendPrologue, h]
+
+example : (⟨true, false, none⟩ : FeedMu.Pro).etype = none ∨ (⟨true, false, none⟩ : FeedMu.Pro).etype = some 3 := Or.inl rfl
+
+/-! ### SubscriptionScope (Aqv.Model.Scope): Track / Close / Count / wrapper Unsubscribe under ANY interleaving of any
+number of Track, Close, Count and wrapper-Unsubscribe calls. -/
+
+/-- when a `Close` returns, every subscription for which `Track` had returned a wrapper has been unsubscribed before
+    that return (by this Close, by an earlier Close, or through its wrapper) — whatever the order of the map iteration. -/
+theorem scope_close_unsubscribes_all {s : Scope.St} (h : Scope.Reach s) (k : Scope.Cid) (i : Scope.Sub)
+    (hret : Scope.Ev.closeRet k ∈ s.tr) (htr : Scope.Ev.trackOk i ∈ s.tr) :
+    Scope.Before s.tr (.unsub i) (.closeRet k) :=
+  (Scope.inv_reach h).all_before i k hret htr
+
+/-- after a `Close` has returned, `Track` never returns a wrapper again (it returns nil and takes no ownership). -/
+theorem scope_track_after_close_returns_nil {s : Scope.St} (h : Scope.Reach s) (k : Scope.Cid) (i : Scope.Sub) :
+    ¬ Scope.Before s.tr (.closeRet k) (.trackOk i) :=
+  (Scope.inv_reach h).no_track_after i k
+
+/-- … as a statement about the step itself: on a closed scope `Track` yields `trackNil` and leaves `sc.subs` alone. -/
+theorem scope_track_on_closed {s s' : Scope.St} (i : Scope.Sub) (hc : s.closed = true)
+    (hs : Scope.step s (.track i) = some s') : s'.tr = s.tr ++ [.trackNil i] ∧ s'.subs = s.subs := by
+  simp only [Scope.step] at hs
+  split at hs
+  · simp only [hc, Option.some.injEq] at hs
+    subst hs; exact ⟨rfl, rfl⟩
+  · cases hs
+
+/-- `Count()` after a `Close` has returned is 0. -/
+theorem scope_count_after_close_zero {s : Scope.St} (h : Scope.Reach s) (k : Scope.Cid) (n : Nat)
+    (hb : Scope.Before s.tr (.closeRet k) (.count n)) : n = 0 :=
+  (Scope.inv_reach h).count_zero k n hb
+
+/-- `sc.mu` is held exactly while one Close is running; a returned Close leaves the scope closed, unlocked and empty. -/
+theorem scope_mutex_and_final_state {s : Scope.St} (h : Scope.Reach s) :
+    (∀ k k', (s.cpc k).isRunning = true → (s.cpc k').isRunning = true → k = k') ∧
+    (∀ k, (s.cpc k).isRunning = true → s.muFree = false) ∧
+    (∀ k, Scope.Ev.closeRet k ∈ s.tr → s.closed = true ∧ s.muFree = true ∧ s.subs = []) := by
+  have hi := Scope.inv_reach h
+  have h1 := hi.mu; have h2 := hi.run; have h4 := hi.done_; have h7 := hi.empty; have h11 := hi.t_ret
+  refine ⟨?_, ?_, ?_⟩ <;> grind
+
+-- non-vacuity: two subscriptions tracked, one unsubscribed through its wrapper while a Close is waiting, Close visits the
+-- map in the "other" order, a second Close and a late Track follow, then Count
+def scopeDemo : List Scope.Act :=
+  [.track 1, .track 2, .count, .wrapCall 2, .closeCall 10, .wrapInner 2, .closeEnter 10, .closeStep 10 2, .closeStep 10 1,
+   .closeExit 10, .wrapDelete 2, .closeCall 11, .closeEnter 11, .track 3, .count]
+def scopeDemoState : Scope.St := (Scope.run Scope.init scopeDemo).getD Scope.init
+theorem scopeDemo_reach : Scope.Reach scopeDemoState :=
+  Scope.reach_run Scope.Reach.init (by unfold scopeDemoState; rfl : Scope.run Scope.init scopeDemo = some scopeDemoState)
+theorem scopeDemo_tr : scopeDemoState.tr =
+    [.trackOk 1, .trackOk 2, .count 2, .wrapCall 2, .closeCall 10, .unsub 2, .unsub 2, .unsub 1, .closeRet 10, .wrapRet 2,
+     .closeCall 11, .closeRet 11, .trackNil 3, .count 0] := by rfl
+instance (tr : List Scope.Ev) (a b : Scope.Ev) : Decidable (Scope.Before tr a b) :=
+  inferInstanceAs (Decidable (List.Sublist [a, b] tr))
+example : Scope.Ev.closeRet 10 ∈ scopeDemoState.tr ∧ Scope.Ev.trackOk 1 ∈ scopeDemoState.tr ∧
+    Scope.Ev.closeRet 11 ∈ scopeDemoState.tr := by rw [scopeDemo_tr]; decide
+example : Scope.Before scopeDemoState.tr (.closeRet 10) (.count 0) ∧ Scope.Before scopeDemoState.tr (.closeRet 10) (.trackNil 3) := by
+  rw [scopeDemo_tr]; decide
+example : scopeDemoState.closed = true := by decide
+
+/-! ### Non-vacuity of the fairness assumptions: the `demo` interleaving (a Send blocked in Select on a subscriber that is
+unsubscribed under it, then a second Send), continued until every receiver is waiting again and then idle forever, is a
+fair execution; the liveness theorems apply to it. -/
+
+def demoFair : List Act := demo ++ [.recvBegin 1, .recvTake 1, .recvBegin 3]
+def demoFairState : St := (run init demoFair).getD init
+theorem demoFair_run : run init demoFair = some demoFairState := by unfold demoFairState; rfl
+theorem demoFair_tr : demoFairState.tr = demoState.tr ++ [.recv 1 8] := by rfl
+
+theorem demoFair_fair : Fair (Exec.ofSchedule demoFair demoFairState demoFair_run) := by
+  have hreach : Reach demoFairState := reach_run Reach.init demoFair_run
+  have he := invE_reach hreach
+  have htr : demoFairState.tr =
+      [.subRet 1, .subRet 2, .sendCall 7, .place 1 7, .unsubCall 2, .unsubRet 2, .sendRet 7 1,
+       .subRet 3, .sendCall 8, .recv 1 7, .place 1 8, .place 3 8, .sendRet 8 2, .recv 3 8, .recv 1 8] := by rfl
+  apply fair_of_quiescent_tail
+  · decide
+  · intro g hg
+    have hc := (he.t_scall g).mpr (by rw [hg]; simp)
+    rw [htr] at hc
+    have : g = 7 ∨ g = 8 := by simpa using hc
+    rcases this with rfl | rfl
+    · have := (he.t_sret 7 1).mp (by rw [htr]; decide)
+      rw [hg] at this; cases this
+    · have := (he.t_sret 8 2).mp (by rw [htr]; decide)
+      rw [hg] at this; cases this
+  · intro c
+    have key : demoFairState.rpc c = .idle ∨ demoFairState.rpc c = .done := by
+      by_cases hi : demoFairState.rpc c = .idle
+      · exact Or.inl hi
+      · have hc := (he.t_ucall c).mpr hi
+        rw [htr] at hc
+        have : c = 2 := by simpa using hc
+        subst this
+        exact Or.inr ((he.t_uret 2).mp (by rw [htr]; decide))
+    rcases key with h0 | h0 <;> simp [h0]
+  · intro c hc
+    have hsc : demoFairState.sendCases = [3, 1] := by rfl
+    rw [hsc] at hc
+    have : c = 3 ∨ c = 1 := by simpa using hc
+    rcases this with rfl | rfl <;> decide
+
+-- the hypothesis of `send_terminates` / `remove_terminates` holds on it at step 3 resp. 9, and so does the conclusion
+example : Ev.sendCall 7 ∈ ((Exec.ofSchedule demoFair demoFairState demoFair_run).σ 3).tr := by decide
+example : Ev.unsubCall 2 ∈ ((Exec.ofSchedule demoFair demoFairState demoFair_run).σ 9).tr := by decide
+example : ∃ m, 3 ≤ m ∧ ∃ r, Ev.sendRet 7 r ∈ ((Exec.ofSchedule demoFair demoFairState demoFair_run).σ m).tr :=
+  send_terminates _ demoFair_fair 7 3 (by decide)
 
 end Aqv.Props.C19
